@@ -208,6 +208,9 @@ def handle (line : String) : String :=
      | some h, some rs, some c => stepReply h rs c
      | _, _, _ => "badreq")
   | ["reser", src] => match srcOf src with | some s => reserReply s | none => "badreq"
+  | ["num", h] => (match unhex h with
+      | some bs => (match parseU64 bs with | some n => s!"ok {n}" | none => "err")
+      | none => "badreq")
   | ["build", src] => match srcOf src with | some s => buildStr (build validUtf8 s) | none => "badreq"
   | ["liftover", src, ivs] =>
     (match srcOf src with | some s => liftoverReply s (ivs.splitOn ",") | none => "badreq")
